@@ -301,6 +301,12 @@ def load_shapes() -> List[Shape]:
         {"f1": [call("f2"), call("f3")], "f2": [], "f3": [load("/t/p2"), load("/t/p2")]},
         reads={"f2": ["v1"], "f3": ["v2"]}, vtype={"v1": "int", "v2": "int"},
         dpath={"f2": "/t/p2", "f3": "/t/p3"}, tags=["load-same-path-twice", "load-in-kept", "producer-datafun"]))
+    # producer keep and reader load both sit in plain helpers (which the class realisation turns into methods)
+    S.append(Shape(
+        "ld_helpers", "f1",
+        {"f1": [call("f2"), call("f3")], "f2": [keep("/h/p", "f4")], "f3": [load("/h/p")], "f4": []},
+        reads={"f4": ["v1"], "f3": ["v2"]}, vtype={"v1": "int", "v2": "int"},
+        dpath={"f1": "/h/root"}, tags=["producer-in-helper", "load-nested-helper", "producer-keepcall"]))
     # one producer function kept under two paths; the reader loads the second one (after / before it is produced)
     S.append(Shape(
         "ld_dup", "f1",
